@@ -227,7 +227,7 @@ def run_config(c, cfg):
             with Stream(us) as st:
                 res = py_simulate_model(np.array(TIMES), Model=impl.model, stochastic=True, delay=True, safe=cfg['safe'], return_dataframe=False)
             fq = res.py_get_delay_queue()
-            return dict(rows=impl.rows(res.py_get_result()), consumed=st.consumed, overrun=st.overrun, queue=e1._drain(fq, len(sp['reactions']), len(TIMES)),
+            return dict(rows=impl.rows(res.py_get_result()), consumed=st.consumed, overrun=st.overrun, queue=e1._drain(fq.py_copy(), len(sp['reactions']), len(TIMES)),
                         queue_next_time=None)
         # every run gets its queue as a copy of one template (independence of copies is part of what makes a path feasible)
         return e1.run_delay(impl, us, TIMES, qdt, len(TIMES), dt=qdt, template=template)
